@@ -42,6 +42,12 @@ void scale(const int nn, /*gpuglmem*/ const double* /*restrict*/ xin, /*gpuglmem
     yout[jj] += 1;
   //end_vectorize
 }
+/*gpukern*/
+void grid(const int nx, const int ny, /*gpuglmem*/ double* hits){
+  //vectorize_over cell nx*ny
+    hits[cell] += 1;
+  //end_vectorize
+}
 """
 # line classes are crossed with their ORIGIN: the annotated lines of inc_all.h are the same classes as in
 # the top-level sample but arrive through the include splice (seeded change C16-a resolved the
@@ -134,9 +140,10 @@ def s1(cx):
             cx.check(present == (tgt in ctxs), f, construct=f"[{tgt}] include providing `{marker}`", detail="file spliced only for the contexts it names", bad_detail=f"include for {ctxs} is {'spliced' if present else 'not spliced'} on {tgt}", sub="S9")
         cx.check(not any("//include_file" in l and not l.lstrip().startswith("//") for l in lines) and "int gpu_only;" in lines if tgt in ("opencl", "cuda") else True, f, construct=f"[{tgt}] included lines verbatim", detail="included file content reaches the output", bad_detail="included file content is missing", sub="S9")
         # ---- vectorised blocks (two in the top-level source, one arriving through the include splice)
-        is_plain = lambda l: l == "  for (int kk=0; kk<3; kk++){ aa += kk; }" or l.startswith("void incfun(")
+        is_plain = lambda l: l == "  for (int kk=0; kk<3; kk++){ aa += kk; }" or l.startswith("void incfun(") or l.startswith("void grid(")
         blocks = []
-        for var, lim, stmt in (("ii", "nn", "yout[ii]"), ("jj", "nn", "yout[jj]"), ("kk", "mm", "qq[kk]")):
+        # (the bound of the last block is an expression: the annotation is `//vectorize_over <index> <bound>`)
+        for var, lim, stmt in (("ii", "nn", "yout[ii]"), ("jj", "nn", "yout[jj]"), ("kk", "mm", "qq[kk]"), ("cell", "nx*ny", "hits[cell]")):
             k = next((n for n, l in enumerate(lines) if stmt in l), None)
             cx.need(k is not None, f"[{tgt}] body statement {stmt} not found in the specialised sample")
             j = k - 1
@@ -155,11 +162,11 @@ def s1(cx):
             cx.check(bal == 0, f, construct=f"[{tgt}] block {var}: opener `{' '.join(o.split())}` closer `{c.strip()}`", detail="braces of a vectorised block balance", bad_detail=f"brace balance {bal:+d}", sub="S1")
             on = " ".join(o.split())
             if tgt.startswith("cpu"):
-                mm = re.fullmatch(r"for \(int (\w+)\s*=\s*0; (\w+)\s*<\s*(\w+); (\w+)\+\+\)\s*\{", on)
+                mm = re.fullmatch(r"for \(int (\w+)\s*=\s*0; (\w+)\s*<\s*([^;]+?); (\w+)\+\+\)\s*\{", on)
                 ok = mm is not None and mm.group(1) == mm.group(2) == mm.group(4) == var and mm.group(3) == lim
                 cx.check(ok, f, construct=f"[{tgt}] `{on}`", detail="serial loop from 0 while < n, unit step: body once per index 0..n-1 (none for n = 0)", bad_detail="CPU loop is not `for (int v=0; v<n; v++){`", sub="S2")
             elif tgt == "cuda":
-                mm = re.fullmatch(r"int (\w+); (\w+)\s*=\s*(.+?); ?if \((\w+)\s*<\s*(\w+)\)\s*\{", on)
+                mm = re.fullmatch(r"int (\w+); (\w+)\s*=\s*(.+?); ?if \((\w+)\s*<\s*([^;{]+?)\)\s*\{", on)
                 ok = mm is not None and mm.group(1) == mm.group(2) == mm.group(4) == var and mm.group(5) == lim
                 if ok:
                     terms = sorted(t.strip().replace(" ", "") for t in mm.group(3).split("+"))
